@@ -348,6 +348,7 @@ EXC_PARENT = {
     "NameError": "Exception",
     "UnboundLocalError": "NameError",
     "StopIteration": "Exception",
+    "BodyException": "Exception",
 }
 
 
